@@ -1,9 +1,22 @@
 import Driver.Codec
-/-! Protocol ops of the `Capture` cluster: decode, call the model, print. -/
+import XdocModel.Capture
+/-!
+Protocol ops of the `Capture` cluster: decode, call the model, print.
+
+* `capture <ev>*` with `S` = start, `X` = exit (`log_part` + `stop`), `W<text>` = the code under
+  test writes `text` to `sys.stdout`. Answer: `<parts> | <outside> | <text|N> | <capturing>`
+-/
 namespace Xdoc.Driver
-open Xdoc
+open Xdoc Capture
+
+def decEv (f : String) : Ev :=
+  if f == "S" then .start else if f == "X" then .exit else .write (decStr (f.drop 1).toString)
 
 def opsCapture : List String → Option String
+  | "capture" :: evs =>
+    let c := Capture.run (evs.map decEv)
+    some (" | ".intercalate [encStrList c.parts, encStr c.outside,
+      (match c.text with | none => "N" | some t => encStr t), encBool c.capturing])
   | _ => none
 
 end Xdoc.Driver
